@@ -214,7 +214,7 @@ CONFIG = {
         "regenerated from extendedcopy.go on every run (Generated/GC03.v) and EXECUTED by the extracted runner: the media type case lists of FilterArtifactType / FilterAnnotation / fetchArtifactType (mtswitch), the guarded return rules of fetchArtifactType per case (c03fetchrules, interpreted by fetch_artifact_type), the depth arithmetic of findRoots (c03findroots: start depth, stop condition, pushed depth), the keep closures and fetch guards of both filters (c03filterkeep); C03_runner_is_model / C03_runner_filters_are_model / fetch_artifact_type_table prove them equal to the functions the theorems speak about, so an edit of these pieces breaks layer T or P. Hand-written and tied by correspondence + AST anchors only: the loop skeleton of findRoots (pop, visited, push order), the ReferrerLister branch, fetchAnnotations",
     ],
     "level_text": "(extension round: failing source operations, caller-supplied FindPredecessors, call sequence, composition with C07 + C01 into the property's own sentences for graph.Memory-backed sources, order independence of the root set) Coq theorems for every source graph, served predecessor order, start node, Depth and filter stack about a model of findRoots (stack DFS, visited set, depth-tagged frames), FilterArtifactType/FilterAnnotation (fetch-on-missing-field) and the ExtendedCopy wrapper: roots = tops of the upward closure and cover it (Depth<=0), two-sided depth bound, termination, filter exactness w.r.t. manifest content, end-to-end closure modulo C01's copy-closure hypothesis; tied to the code by hook-level differential runs (findRoots, opts.FindPredecessors, fetchArtifactType, ExtendedCopy) and an independent oracle on ExtendedCopy/ExtendedCopyGraph over memory, OCI (fresh and reopened), file and remote (Referrers API with pagination, referrers tag schema) sources",
-    "level_note": "oracle-only clauses: byte identity (the theorems speak of node membership, C01's has); the tag of ExtendedCopy in substance (C03_tagged is a statement about the 3-step wrapper model Resolve/copy/Tag, its correspondence reads the destination's references; the Tag call is outside C01's transition system); the given node must be stored in the source: a foreign (non-distributable) layer as start node is outside the quantifier (never stored, pred_is_inverse_link is over foreign-cut links) and is not generated; errors of the root-finding phase are modelled (find_roots_e) and compared; errors of the copy phase are C02's -- the harness injects one failing source operation / registry request per fault case into ExtendedCopyGraph and demands error-or-full-closure; a finding made with Raw (store map order) reads may need several replays with Depth > 0; copy phase = hypothesis copy_closure_C01 (C01); remote sources through an in-memory read-only registry only; concurrency of the copy phase is exercised (Concurrency 0-4) but not modelled here; Docker manifests have no artifact type (effective type \"\")",
+    "level_note": "oracle-only clauses: byte identity (the theorems speak of node membership, C01's has); the tag of ExtendedCopy in substance (C03_tagged / C03_error_origin are statements about the wrapper model Resolve / FindPredecessors / copy / Tag; its correspondence reads the destination's references and the CopyError op/origin of the first failing step; the Tag call is outside C01's transition system); the given node must be stored in the source: a foreign (non-distributable) layer as start node is outside the quantifier (never stored, pred_is_inverse_link is over foreign-cut links) and is not generated; errors of the root-finding phase are modelled (find_roots_e) and compared; errors of the copy phase are C02's -- the harness injects one failing source operation / registry request per fault case into ExtendedCopyGraph and demands error-or-full-closure; a finding made with Raw (store map order) reads may need several replays with Depth > 0; copy phase = hypothesis copy_closure_C01 (C01); remote sources through an in-memory read-only registry only; concurrency of the copy phase is exercised (Concurrency 0-4) but not modelled here; Docker manifests have no artifact type (effective type \"\")",
     "technique": "machine-checked proof in Coq (loop invariants of the stack DFS, for every served predecessor order) + model/implementation correspondence + independent oracle",
     "explanation": "small-scope exhaustive stream: every predecessor graph on <= 4 nodes (5 in thorough, sampled orders) x every served order x start x Depth 0..3 on a stub source; compared observables: root set, call sequence of FindPredecessors, opts.FindPredecessors output (ids, filled artifactType, annotations), fetchArtifactType, outcome under the k-th failing operation, ExtendedCopy wrapper tags; coverage floors per source kind / stream (harness exit 4 = layer R); every findRoots and copy call under a re-confirmed watchdog (a call that ignores cancellation is abandoned and reported). (thorough: sampled cases re-evaluated inside Coq with vm_compute against the extracted runner) loop-invariant proofs over the DFS of findRoots for every served order; filter exactness by induction over the filter stack; model vs implementation on findRoots (hook), opts.FindPredecessors and fetchArtifactType for random DAGs x source kinds x descriptor styles; oracle from the generator's inverse edge list and manifest fields on findRoots, ExtendedCopyGraph and ExtendedCopy",
 }
